@@ -204,7 +204,7 @@ class Avg:
             # (an exact zero: a float one rounds big ints and turns
             # Fractions into floats, and cannot be added to a Decimal)
             avg_acc = tree[self] = [0, 0]
-        avg_acc[0] += target
+        avg_acc[0] = avg_acc[0] + target  # (not +=: 0 + target may be the target itself)
         avg_acc[1] += 1
         return avg_acc[0] / avg_acc[1]
 
